@@ -47,7 +47,11 @@ def path_fn(k, t):
     return {"i": "d_i32", "o": "d_opt", "s": "d_str", "v": "d_vec"}[t]
 
 
-def field(i, combo, token):
+def field(i, combo, token, layout="canon"):
+    """layout: how the items are spread over `#[jomini(..)]` attributes (the meaning must not depend on it):
+    canon  one list `alias, default, kind, token`      rev    one list, reversed
+    split  one attribute per item, canonical order     splitrev  one attribute per item, reversed
+    kindfirst  one list with the kind item first       two    kind alone first, the rest in a second list"""
     k, d, t, a = combo
     attrs = []
     if a:
@@ -62,9 +66,26 @@ def field(i, combo, token):
         attrs.append("take_last")
     if token:
         attrs.append("token = 0x%04x" % (0x2d00 + F_BASE + i))
+    kind_items = [x for x in attrs if x in ("duplicated", "take_last")]
+    other_items = [x for x in attrs if x not in ("duplicated", "take_last")]
+    if layout == "canon":
+        lists = [attrs]
+    elif layout == "rev":
+        lists = [attrs[::-1]]
+    elif layout == "split":
+        lists = [[x] for x in attrs]
+    elif layout == "splitrev":
+        lists = [[x] for x in attrs[::-1]]
+    elif layout == "kindfirst":
+        lists = [kind_items + other_items]
+    elif layout == "two":
+        lists = [kind_items, other_items]
+    else:
+        raise ValueError(layout)
     line = ""
-    if attrs:
-        line += "    #[jomini(%s)]\n" % ", ".join(attrs)
+    for l in lists:
+        if l:
+            line += "    #[jomini(%s)]\n" % ", ".join(l)
     line += "    f%d: %s,\n" % (i, rust_type(k, t))
     spec = "f%d:%s:%s:%s:%s:%s" % (i, k, d, t, ("a%d" % i) if a else "-", str(0x2d00 + F_BASE + i) if token else "-")
     return line, spec, "format!(\"f%d={}\", %s(&self.f%d))" % (i, show_fn(k, t), i)
@@ -77,14 +98,31 @@ for k in range(n):
     idxs = [k, (k * 7 + 13) % n, (k * 11 + 29) % n, (k * 5 + 47) % n]
     if k % 3 == 2:
         idxs = idxs[:3]
-    structs.append(("F%d" % k, [combos[j] for j in idxs], False))
+    structs.append(("F%d" % k, [combos[j] for j in idxs], False, "canon"))
 # token structs: every field carries `token = …`; kinds / defaults / types / aliases vary
 tok_sets = [
     [0, 25, 50, 61], [1, 30, 44, 65], [7, 19, 48], [8, 27, 55, 60], [12, 33, 47, 63], [15, 24, 52],
     [3, 28, 45, 64], [5, 35, 49, 62], [10, 21, 57], [14, 37, 51, 59], [17, 31, 43, 58], [22, 39, 53],
 ]
 for k, s in enumerate(tok_sets):
-    structs.append(("T%d" % k, [combos[j] for j in s], True))
+    structs.append(("T%d" % k, [combos[j] for j in s], True, "canon"))
+# attribute-list layout variants: the same field combinations with the items of the `#[jomini(..)]`
+# list in another order / spread over several attributes (attribute parsing is where slips live);
+# the FieldSpec text is that of the canonical layout
+C = {c: i for i, c in enumerate(combos)}
+layout_bases = [
+    [C[("t", "y", "i", True)], C[("d", "p", "s", True)], C[("t", "p", "o", True)], C[("p", "y", "v", True)]],
+    [C[("d", "y", "i", True)], C[("t", "n", "s", True)], C[("p", "p", "i", True)], C[("t", "p", "v", True)]],
+    [C[("t", "p", "i", False)], C[("d", "y", "v", False)], C[("p", "p", "s", True)], C[("t", "y", "o", False)]],
+]
+vk = 0
+for base in layout_bases:
+    for layout in ["rev", "split", "splitrev", "kindfirst", "two"]:
+        structs.append(("V%d" % vk, [combos[j] for j in base], False, layout))
+        vk += 1
+for layout in ["rev", "split", "splitrev", "kindfirst", "two"]:
+    structs.append(("V%d" % vk, [combos[j] for j in layout_bases[0]], True, layout))
+    vk += 1
 
 out = []
 out.append("// GENERATED by tools/gen_c18_family.py -- do not edit by hand.\n")
@@ -132,11 +170,11 @@ fn sh_vv(x: &Vec<Vec<i32>>) -> String {
 """)
 table = []
 arms = []
-for name, cs, token in structs:
+for name, cs, token, layout in structs:
     out.append("#[derive(JominiDeserialize, Debug, PartialEq)]\npub struct %s {\n" % name)
     specs, shows = [], []
     for i, c in enumerate(cs):
-        line, spec, show = field(i, c, token)
+        line, spec, show = field(i, c, token, layout)
         out.append(line)
         specs.append(spec)
         shows.append(show)
